@@ -213,6 +213,7 @@ type mwRun struct {
 	snaps  []verSnap
 	snapAt map[string]int
 	farVacuumed bool
+	opsAdded int
 }
 
 const mwCols = "k primary key, a, b, c"
@@ -316,6 +317,7 @@ func (r *mwRun) execStmt(wi int, s Stmt, where string, isRetry, inTxn bool) erro
 	if cls != outcome {
 		return fmt.Errorf("%s: writer %d: %s: outcome %s, reference model expects %s", where, wi, s, cls, outcome)
 	}
+	r.opsAdded += len(added) // counts re-applied identical operations too
 	for _, op := range added {
 		w.view.Add(op)
 		m := r.writersOfKey[op.KeyID]
@@ -478,6 +480,46 @@ func (r *mwRun) quiescence(where string) error {
 
 func (r *mwRun) step(i int, s MWStep) error {
 	where := fmt.Sprintf("step %d (%s w%d)", i, s.Op, s.W)
+	if r.c.Mode == "c11" && (s.Op == "stmt" || s.Op == "txn" || s.Op == "retry" || s.Op == "refresh") {
+		// s3db_version changes exactly when the committed contents change
+		w := r.ws[s.W]
+		vb, err := w.conn.Version(w.name)
+		if err != nil {
+			return fmt.Errorf("%s: s3db_version: %v", where, err)
+		}
+		rb, nb := w.view.Rows(wideCols), r.opsAdded
+		quiescent := false
+		if s.Op == "refresh" {
+			cur := r.currentNames()
+			own := parseVersionList(vb)
+			quiescent = len(cur) == len(own) && strings.Join(sortedCopy(cur), ",") == strings.Join(own, ",")
+		}
+		if err := r.step1(i, s, where); err != nil {
+			return err
+		}
+		va, err := w.conn.Version(w.name)
+		if err != nil {
+			return fmt.Errorf("%s: s3db_version: %v", where, err)
+		}
+		ra := w.view.Rows(wideCols)
+		if !ra.Equal(rb) && va == vb {
+			return fmt.Errorf("%s: the visible rows changed but s3db_version is still %s", where, va)
+		}
+		if s.Op != "refresh" && r.opsAdded == nb && va != vb {
+			return fmt.Errorf("%s: nothing changed (no row matched / statement refused) but s3db_version went from %s to %s", where, vb, va)
+		}
+		if quiescent && va != vb {
+			return fmt.Errorf("%s: refreshing a quiescent table changed s3db_version from %s to %s", where, vb, va)
+		}
+		if va == vb {
+			r.o.Class("version-unchanged-step")
+		}
+		return nil
+	}
+	return r.step1(i, s, where)
+}
+
+func (r *mwRun) step1(i int, s MWStep, where string) error {
 	switch s.Op {
 	case "stmt":
 		if err := r.execStmt(s.W, s.Stmts[0], where, false, false); err != nil {
@@ -622,6 +664,12 @@ func (r *mwRun) step(i int, s MWStep) error {
 		return r.observeAll(s.Perm, where)
 	case "vacuum":
 		return r.vacuumStep(s, where)
+	case "reread":
+		return r.rereadSnaps(where, true)
+	case "frontier":
+		return r.frontierStep(where)
+	case "changes", "changes-fault":
+		return r.changesStep(s, where)
 	}
 	return fmt.Errorf("bad step %q", s.Op)
 }
